@@ -28,9 +28,8 @@ RULE = ("correspondence: one driver line per call of inverse_mod / deterministic
         "sign_with_recid / possible_public_pairs_for_signature / d*G on a toy curve; distinct = distinct line; "
         "non-trivial = the model returns a value (not an exception)")
 PARTIAL = [
-    "signing is not total on toy curves (C01_refuted_sign_total; open finding sign-nonce-run-exhausted-typeerror): C01_sign_total_partial "
-    "characterises the only exception; recovery is sound only for abscissae r < p (C01_refuted_recover_sound; open finding "
-    "recover-abscissa-not-below-p): C01_recover_sound_partial, no restriction when n <= p",
+    "termination of signing (C01_sign_total) assumes that some nonce of [1, n-1] gives non-zero r and s and that the RFC 6979 "
+    "HMAC loop has returned; both are hypotheses (the first checked exhaustively for two toy curves)",
     "the group laws (incl. associativity), n prime, n*P = O, the two-roots law of points_for_x are hypotheses of the theorems; "
     "discharged by kernel computation for four toy curves only (premises M2/M4 for secp256k1/secp256r1)",
     "independence of nonces for distinct (key, hash) pairs beyond injectivity of the HMAC input is a PRF property of HMAC-SHA256: no theorem",
@@ -99,10 +98,20 @@ def impl_verify(params, Q, z, r, s):
 
 
 def impl_sign(params, d, z):
+    if z != 0 and not has_good_nonce(ref_of(params), d, z):
+        # no nonce of [1, n-1] gives non-zero r and s: the implementation would not terminate; the reference
+        # arithmetic predicts that, the implementation is not called (see C01_sign_loop_total)
+        try:
+            deterministic_generate_k(params[5], d, z)
+        except Exception as e:
+            return "!" + exn_tag(e)
+        return "!OUT_OF_FUEL"
     return call(lambda: tuple(gen_of(params).sign_with_recid(d, z)))
 
 
 def impl_sign_k(params, d, z, k):
+    if z != 0 and k % params[5] != 0 and not has_good_nonce(ref_of(params), d, z):
+        return "!OUT_OF_FUEL"
     return call(lambda: tuple(gen_of(params).sign_with_recid(d, z, gen_k=lambda *_: k)))
 
 
@@ -382,14 +391,25 @@ def model_cases(rng, tier):
 # ------------------------------------------------------------------------------------------------
 # direct property checks on toy curves
 def _first_good_nonce(ref, d, z, k0):
-    """pycoin's retry rule k += 1: the first k >= k0 below n with non-zero r and s; None when the run is exhausted"""
+    """pycoin's retry rule `k += 1; if k >= n: k = 1`: the first nonce of the cycle k0, k0+1, .., n-1, 1, .., k0-1 with
+    non-zero r and s; None when no nonce of [1, n-1] is good (the implementation then loops forever)"""
+    n = ref.n
     k = k0
-    while k % ref.n:
+    for _ in range(n - 1):
         sig = ref.sig_from_nonce(d, z, k)
         if sig is not None:
             return k, sig
         k += 1
+        if k >= n:
+            k = 1
     return None
+
+
+def has_good_nonce(ref, d, z):
+    """False only when sign_with_recid(d, z) would cycle forever on this (small) curve"""
+    if ref.n > 200:
+        return True
+    return any(ref.sig_from_nonce(d, z, k) is not None for k in range(1, ref.n))
 
 
 def chk_toy_sign(params, d, z):
@@ -397,11 +417,12 @@ def chk_toy_sign(params, d, z):
     G, ref = gen_of(params), ref_of(params)
     n = ref.n
     k0 = E.rfc6979_k(n, d, _z_octets(z)) if 0 <= z < 2 ** 256 else None
+    if not has_good_nonce(ref, d, z):
+        return None          # no nonce of [1, n-1] signs: outside the hypotheses of C01_sign_total (and the call would not return)
     try:
         r, s, recid = G.sign_with_recid(d, z)
     except Exception as e:
-        exhausted = k0 is not None and _first_good_nonce(ref, d, z, k0) is None
-        return {"kind": "sign-raises", "exc": exn_tag(e), "nonce_run_exhausted": exhausted, "k0": k0}
+        return {"kind": "sign-raises", "exc": exn_tag(e), "k0": k0}
     if not (1 <= r < n and 1 <= s < n):
         return {"kind": "sig-out-of-range", "sig": [r, s]}
     Q = ref.mul(d, ref.g)
@@ -465,7 +486,7 @@ def chk_toy_recover(params, z, r, s):
     for P in rec:
         canon_P = None if P[0] is None else (P[0] % p, P[1] % p)
         if not G.verify(P, z, (r, s)) or not ref.verify(canon_P, z, r, s):
-            return {"kind": "recovered-key-does-not-verify", "r": r, "s": s, "key": list(P), "r_ge_p": r >= p}
+            return {"kind": "recovered-key-does-not-verify", "r": r, "s": s, "key": list(P)}
     if 1 <= r < n and 1 <= s < n:
         # completeness: every key whose sum point has abscissa exactly r is returned
         ir = pow(r, -1, n)
@@ -494,6 +515,9 @@ def chk_toy_noncanonical(params, Q, z, r, s):
 
 def toy_prop_cases(rng, tier):
     thorough = tier == "thorough"
+    # regression: the two inputs that failed before commits de8ed07 (retry run reached k = n) and 28216b2 (r >= p)
+    yield PropCase("toy_sign", {"curve": _W, "d": 2, "z": 11}, (lambda: chk_toy_sign(_W, 2, 11)))
+    yield PropCase("toy_recover", {"curve": _W, "z": 1, "r": 8, "s": 1}, (lambda: chk_toy_recover(_W, 1, 8, 1)))
     # the corner that used to fail before commit bbdd27a (Curve.multiply returned unreduced coordinates for e = 1 mod n)
     yield PropCase("toy_noncanonical", {"curve": _W, "q": (1, 2), "z": 13, "r": 8, "s": 8}, (lambda: chk_toy_noncanonical(_W, (1, 2), 13, 8, 8)))
     for c in SMALL:
@@ -720,19 +744,11 @@ def prop_cases(rng, tier):
 
 # ------------------------------------------------------------------------------------------------
 def classify(pc, r):
-    k = r.get("kind")
-    if pc.name == "toy_sign" and k == "sign-raises" and r.get("exc") == "E_TYPE" and r.get("nonce_run_exhausted"):
-        return "sign-nonce-run-exhausted-typeerror"
-    if pc.name in ("toy_recover", "toy_sign") and k == "recovered-key-does-not-verify" and r.get("r_ge_p", False):
-        return "recover-abscissa-not-below-p"
-    return None
+    return None          # no open finding for C01
 
 
 _W = (7, 0, 3, 1, 2, 13)
-KNOWN_REPLAYS = {
-    "sign-nonce-run-exhausted-typeerror": lambda: chk_toy_sign(_W, 2, 11),
-    "recover-abscissa-not-below-p": lambda: chk_toy_recover(_W, 1, 8, 1),
-}
+KNOWN_REPLAYS = {}
 
 
 def _replay_prod(case, expect):
